@@ -32,6 +32,10 @@ NOT_FUNCS = {"np.bitwise_not", "numpy.bitwise_not", "np.logical_not",
 
 
 MUTANTS = [
+    ("blanks written through data.ravel()", "AegeanTools/MIMAS.py",
+     "    bigmask = bigmask.reshape(data.shape)\n    # and apply the mask\n"
+     "    data[bigmask] = np.nan",
+     "    # and apply the mask\n    data.ravel()[bigmask] = np.nan", "C10-R2"),
     ("pixel block stored over the previous row's slots", "AegeanTools/MIMAS.py",
      "        indexes[i*j:(i+1)*j] = idx", "        indexes[i*j:(i-1)*j] = idx",
      "C10-R7"),
@@ -509,6 +513,32 @@ def run(ctx):
                             isinstance(s.targets[0], ast.Subscript) and \
                             norm(s.targets[0].value) == fi.params[0]:
                         sinks.append((s, s.targets[0].slice))
+                    elif isinstance(s, ast.Assign) and \
+                            isinstance(s.targets[0], ast.Subscript) and \
+                            isinstance(s.targets[0].value, ast.Call) and \
+                            isinstance(s.targets[0].value.func,
+                                       ast.Attribute) and \
+                            norm(s.targets[0].value.func.value) == \
+                            fi.params[0] and neg is False:
+                        # data.ravel()[mask] = nan / data.reshape(-1)[..]:
+                        # numpy returns a VIEW only for contiguous arrays
+                        ctx.check("C10-R2", fi, "blanks written into the "
+                                  "image itself: " + norm(s, 60), False,
+                                  "`%s` stores into the result of a method "
+                                  "call: for a non-contiguous image (a "
+                                  "cut-out view, a transposed or strided "
+                                  "array) that is a temporary copy, and the "
+                                  "image comes back unmasked" %
+                                  norm(s.targets[0].value, 40), node=s)
+                        sinks.append((s, s.targets[0].slice))
+                    elif isinstance(s, ast.Assign) and \
+                            isinstance(s.targets[0], ast.Subscript) and \
+                            isinstance(s.targets[0].value, ast.Call) and \
+                            isinstance(s.targets[0].value.func,
+                                       ast.Attribute) and \
+                            norm(s.targets[0].value.func.value) == \
+                            fi.params[0]:
+                        sinks.append((s, s.targets[0].slice))
             else:
                 for s in walk_no_nested(fi.node):
                     if isinstance(s, ast.Return) and \
@@ -646,7 +676,8 @@ def run(ctx):
                 len(st.value.args[0].elts) == 2 and \
                 isinstance(st.value.args[0].elts[1], ast.Constant) and \
                 st.value.args[0].elts[1].value == 2:
-            n_ = st.value.args[0].elts[0]
+            from ..core import expand_locals as _el7
+            n_ = _el7(mp.node, st.value.args[0].elts[0])
             okn = isinstance(n_, ast.BinOp) and isinstance(n_.op, ast.Mult) \
                 and {norm(n_.left), norm(n_.right)} == {
                     data + ".shape[0]", data + ".shape[1]"} or \
